@@ -57,9 +57,17 @@ def handleTT (ins outs : List J) : Verdict :=
                let tAbs := I.sqrt (I.ofRat t2)
                let lo := ratMax 0 (tAbs.lo * (1 - rt) - rt); let hi := tAbs.hi * (1 + rt) + rt
                if !Special.lgammaOK [st.dof / 2, 1 / 2, st.dof / 2 + 1 / 2] then [("reference-consistency", false, "the proved log Gamma enclosure did not terminate")] else
+               -- when the tolerance on T reaches past zero the sign of the computed T is not determined by the data:
+               -- the one-sided tails then range over both signs of the admitted |T| ≤ -loRaw
+               let loRaw := tAbs.lo * (1 - rt) - rt
+               let cNeg : Option I := if loRaw < 0 then Special.tCDFgen st.dof (-loRaw) else none
+               if loRaw < 0 && cNeg.isNone then [] else
                match Special.tCDFgen st.dof lo, Special.tCDFgen st.dof hi with
                | some cl, some ch =>
                  let mk (cAbs : I) : I :=
+                   let cAbs : I := match cNeg with
+                     | some cn => if alt == 0 then cAbs else ⟨ratMin cAbs.lo (1 - cn.hi), cAbs.hi⟩
+                     | none => cAbs
                    let c : I := if st.num ≥ 0 then cAbs else I.sub (I.ofRat 1) cAbs
                    if alt == 0 then I.scale 2 (I.sub (I.ofRat 1) cAbs)
                    else if alt < 0 then c else I.sub (I.ofRat 1) c
